@@ -83,9 +83,11 @@ func (b *ByteBuffer) Commit(n int) {
 		return
 	}
 
-	b.ri += n
-	if b.ri > b.wi {
+	if n > b.wi-b.ri {
+		// Clamp before adding: b.ri + n may overflow for large n.
 		b.ri = b.wi
+	} else {
+		b.ri += n
 	}
 }
 
